@@ -306,6 +306,9 @@ func (update *Update) UnmarshalCBOR(data []byte) error {
 // - the accumulator includes the hash of the last item in the hash chain
 // - the hash chain is valid (each chain item has the correct hash of its parent).
 func (update *Update) Verify(pk *gabikeys.PublicKey) (*Accumulator, error) {
+	if update.SignedAccumulator == nil {
+		return nil, errors.New("update has no signed accumulator")
+	}
 	acc, err := update.SignedAccumulator.UnmarshalVerify(pk)
 	if err != nil {
 		return nil, err
